@@ -299,13 +299,16 @@ pub fn c09(rec: &StepRec, _p: &Pool, out: &mut Vec<Viol>) {
         return;
     }
     match rec.op {
-        FromStr(_) | FromString(_) => {
+        FromStr(_) | FromString(_) | Conv(..) => {
             let c = rec.post[rec.new_slot.unwrap()].as_ref().unwrap();
+            // decoders that guess their capacity from the input length are outside the
+            // "exactly one allocation, capacity == len" clause
+            let exact_clause = !matches!(rec.op, Conv(1..=3, _));
             if c.len <= INLINE {
                 if rec.d.requests != 0 || c.heap_flag || c.kind != Kind::Inline {
                     v("short-ctor", format!("{:?}/{:?}: text of {} bytes issued {} request(s), is_heap_allocated={}", rec.op, rec.form, c.len, rec.d.requests, c.heap_flag));
                 }
-            } else if rec.d.allocs != 1 || rec.d.reallocs != 0 || c.cap != c.len || !c.heap_flag {
+            } else if exact_clause && (rec.d.allocs != 1 || rec.d.reallocs != 0 || c.cap != c.len || !c.heap_flag) {
                 v("long-ctor", format!("{:?}/{:?}: text of {} bytes: {} alloc(s), {} realloc(s), capacity {}", rec.op, rec.form, c.len, rec.d.allocs, rec.d.reallocs, c.cap));
             }
         }
